@@ -262,9 +262,9 @@ def step (line : String) : String :=
     match parseTyIni inc t n with
     | some (inc, ty, ini) =>
       if !refClass ty inc ini then "no:refclass"
-      else if inc then "no:inc"
+      else if inc && !incFlat ty ini then "no:inc-nested"
       else if !layOK ty then "no:layout"
-      else if !(noUnion ty || noDesig ini) then "no:union+desig"
+      else if !desigsOK (subTys ty) ini then "no:union-member-desig"
       else if !strsOK ini then "no:strwidth"
       else if !constVals ty inc ini then "no:nonconst"
       else if imgClass ty inc ini then "yes" else "no:other"
